@@ -171,7 +171,7 @@ CHECKS = {
               "every varint length boundary, 10 float/double bit patterns incl. -0.0, NaN payload, subnormal; strings/bytes of length "
               "0,1,127,128,256,300 [16384 thorough]; repeated: singletons, the whole alphabet, 140 copies; maps: every key with one "
               "value, every value with one key, default key+default value, 4 entries; embedded messages: values of the embedded "
-              "type one level down [two thorough]) and 6 [40] all-fields rows. Each value is produced by decoding its reference "
+              "type one level down [two thorough]) and 6 [40] all-fields rows [thorough: plus every pair of fields over the first 4 values of each]. Each value is produced by decoding its reference "
               "encoding with 4 buffer kinds (Bytes, &[u8], two chunks split at 1 and at len/2: the varint slow path), then: "
               "encoded_len() == bytes written; encode into a window of exactly encoded_len() succeeds, fills it and leaves the "
               "painted slack intact; one byte less is refused; encode_length_delimited == varint(len)+encode; decoding the output "
@@ -262,7 +262,7 @@ CHECKS = {
               "forms) in each of 23 identifier positions. Every AST is printed to tokens; EVERY free choice is a choice point of the "
               "deviation-bounded explorer: the blank between any two tokens (space, newline, tab+CRLF, /*c*/, // c, # c), every "
               "optional list separator (',' ';' none), quote style, decimal/hex integer form. Default layout + all single "
-              "deviations (thorough: all pairs for documents of <=24 tokens). Oracle: File::parse(text) == Ok((\"\", f)), Debug of "
+              "deviations (thorough: all triples for documents of <=24 tokens, all pairs for every document; capped at 6 M layouts per document). Oracle: File::parse(text) == Ok((\"\", f)), Debug of "
               "f.items == Debug of the AST converted to the parser's descriptor types, package == the rs namespace. "
               "distinct_nontrivial = distinct rendered texts."),
         assumptions=["a dotted path is one identifier token (no blanks around dots)", "separator choices only where Thrift IDL and "
@@ -274,7 +274,7 @@ CHECKS = {
               "non-ASCII document. Mutations enumerated completely per seed: every prefix; every token deleted, duplicated, replaced "
               "by each of a 40-token alphabet (every 3rd token for long seeds in quick); every number inflated to 10/11/19/20/40 "
               "digits and to 7 extreme literals; tokens repeated 64/4096/60000 times (nesting tokens - [ { < ( list map set only 2 "
-              "and 64 times: deeper nesting is outside the statement); ALL strings of length <=2 [3] over a 40-character alphabet, "
+              "and 64 times: deeper nesting is outside the statement); ALL strings of length <=2 [4] over a 40-character alphabet, "
               "alone and behind 7 plausible prefixes; type and constant nesting depth 1..64 (list<..>, map<..>, [[..]], {{..}}, "
               "----1). Every parse runs on a thread with a 2 MiB stack. Oracle: Ok or Err; no panic, no stack overflow (worker "
               "death), < 2 s. distinct_nontrivial = distinct texts."),
